@@ -509,6 +509,8 @@ impl TypeChecker {
                     self.check_constraints(*span, ctx, target_ty)?;
                 } else {
                     self.unify(*span, ctx, expression_ty, target_ty)?;
+                    // `x += x`: both sides are one type already, so unifying them checks nothing.
+                    self.check_constraints(*span, ctx, target_ty)?;
                 }
                 self.unify_option(*span, ctx, expression_ret, target_ret)
             }
